@@ -126,7 +126,8 @@ def extract(cfg, repo=None, verbose=True):
             pass
         return outdir
     os.makedirs(os.path.join(CACHE, "facts", th), exist_ok=True)
-    lock = open(os.path.join(CACHE, "facts", th, cfg + ".lock"), "w")
+    # one extraction at a time per (cache, configuration): the cargo target dir of a configuration is shared by all trees
+    lock = open(os.path.join(CACHE, "extract-" + cfg + ".lock"), "w")
     fcntl.flock(lock, fcntl.LOCK_EX)
     try:
         if os.path.exists(done):
